@@ -6,7 +6,7 @@ import numpy as np
 from hypothesis import strategies as st
 
 from vlib import gen_tree, models
-from vlib.harness import Machine, Sub
+from vlib.harness import Enumerate, Machine, Sub
 
 PROPERTY = "C03"
 RULE = (
@@ -332,6 +332,21 @@ def bulk_strategy(draw, tier):
                                                    "cat", "translate", "swc"]), min_size=3, max_size=5, unique=True))}
 
 
+def bulk_cases(tier):
+    """Every boundary size once (quick) / with every shape (thorough); which shape, nodes and operations go with a size is a
+    pure function of VERIF_SEED."""
+    import os
+    import random
+
+    rnd = random.Random(int(os.environ.get("VERIF_SEED", "1") or 1) * 7919 + 3)
+    shapes = ["uniform", "caterpillar", "binary", "hubs"]
+    ops = ["sort", "subtree", "to_subtree", "cut_type", "redirect", "redirect-nosort", "cat", "translate", "swc"]
+    for k, n in enumerate(BULK_N):
+        for shape in (shapes if tier != "quick" else [shapes[(k + rnd.randrange(4)) % 4], "uniform"]):
+            yield {"tree": {"bulk": [rnd.randrange(2 ** 31 - 1), n, shape, "lattice"]},
+                   "sel": [rnd.randrange(10 ** 6) for _ in range(4)], "ops": rnd.sample(ops, 3 + rnd.randrange(3))}
+
+
 def _wellformed_np(ids, pids, root=0):
     n = len(ids)
     if not np.array_equal(ids, np.arange(n)):
@@ -436,6 +451,6 @@ SUBCHECKS = [
                       "family:shape": 100, "family:io": 60, "family:compose": 60, "steps>=3": 250,
                       "start:numbering-not-parent-before-child": 100, "transform-object-used-again": 150,
                       "transform-applied-to-its-own-result": 100}),
-    Sub("bulk", bulk_strategy, run_bulk, quick=28, thorough=160, shards_quick=7, shards_thorough=16,
-        required={"bulk:result-of-32769..65535-nodes": 6, "bulk:n=256": 1, "bulk:n=65536": 1}),
+    Enumerate("bulk", bulk_cases, run_bulk, shards_quick=8, shards_thorough=16,
+              required={"bulk:result-of-32769..65535-nodes": 3, "bulk:n=256": 1, "bulk:n=65536": 1}, exhaustive=False),
 ]
